@@ -4,6 +4,7 @@
   `checkpicosvg` (1275-1330).
 -/
 import PicoSVG.Model.Cascade
+import PicoSVG.Model.TreeOps
 
 namespace PicoSVG.Traverse
 open Cascade
@@ -45,6 +46,8 @@ def childCtxs (c : Ctx) : Except PyErr (List Ctx) := do
   let mut i := 0
   for ch in c.node.children do
     if ch.isLxmlNode && !ch.isRedundant then
+      -- `strip_ns(child.tag)` on an entity node: QName of a function object
+      if ch == Node.entity then throw .valueError
       let t ← elementTransform ch c.transform
       let l := ch.localTag
       let n := (counts.lookup l).getD 0
@@ -77,11 +80,7 @@ def dfsFrom : (fuel : Nat) → List Ctx → Except PyErr (List Ctx)
     let more ← dfsFrom fuel (kids ++ rest)
     pure (c :: more)
 
-partial def sizeOf' : Node → Nat
-  | .elem _ _ _ cs => 1 + (cs.map sizeOf').sum
-  | _ => 1
-
-def nodeCount (n : Node) : Nat := sizeOf' n
+def nodeCount (n : Node) : Nat := n.flat.length
 
 def breadthFirst (root : Node) : Except PyErr (List Ctx) := do
   let r ← rootCtx root
